@@ -60,10 +60,64 @@ def make_ops(rng, n):
     return ops
 
 
+def make_arith_ops(rng, n):
+    """integer variables, scaled variables, sums over pairwise different variables (nothing for the constructor to merge),
+    equalities and exclusive ors, each also repeated with permuted arguments"""
+    ops, info = [], []                      # info[i]: ("I", base variable set) | ("B", key)
+    def add(op, inf):
+        ops.append(op); info.append(inf)
+    nv = rng.randint(2, 5)
+    order = list(range(nv)); rng.shuffle(order)
+    for k in order[:2]:
+        add(f"ivar {k}", ("V", k))
+    for k in range(rng.randint(2, 3)):
+        add(f"bvar {k}", ("B", ("b", k)))
+    for _ in range(n):
+        vars_ = [i for i, x in enumerate(info) if x[0] == "V"]
+        addends = [i for i, x in enumerate(info) if x[0] in ("V", "S")]
+        ints = [i for i, x in enumerate(info) if x[0] in ("V", "S", "P")]
+        bools = [i for i, x in enumerate(info) if x[0] == "B"]
+        c = rng.random()
+        if c < 0.12:
+            k = rng.randrange(nv); add(f"ivar {k}", ("V", k))
+        elif c < 0.3:
+            i = rng.choice(vars_); add(f"scale {rng.choice([2, 3, 5, -2, 7])} {i}", ("S", info[i][1]))
+        elif c < 0.6:
+            rng.shuffle(addends)
+            chosen, used = [], set()
+            for i in addends:
+                if info[i][1] not in used:
+                    used.add(info[i][1]); chosen.append(i)
+                if len(chosen) == 4:
+                    break
+            if len(chosen) >= 2:
+                chosen = chosen[:rng.randint(2, len(chosen))]
+                add("plus " + " ".join(map(str, chosen)), ("P", None))
+        elif c < 0.75 and len(ints) >= 2:
+            i, j = rng.sample(ints, 2)
+            if ops[i] != ops[j]:
+                add(f"eq {i} {j}", ("E", None))
+        elif len(bools) >= 2:
+            i, j = rng.sample(bools, 2)
+            if info[i][1] != info[j][1]:
+                add(f"xor {i} {j}", ("X", None))
+        if rng.random() < 0.4 and ops:
+            j = rng.randrange(len(ops))
+            toks = ops[j].split()
+            if toks[0] in ("plus", "eq", "xor"):
+                a = toks[1:]; rng.shuffle(a)
+                add(" ".join([toks[0]] + a), info[j])
+    return ops
+
+
 def run_case(args):
     idx, seed, exe = args
     rng = random.Random(f"c28-{seed}-{idx}")
-    ops = make_ops(rng, rng.randint(20, 80))
+    if isinstance(exe, tuple):                 # (harness, "arith")
+        exe = exe[0]
+        ops = make_arith_ops(rng, rng.randint(15, 60))
+    else:
+        ops = make_ops(rng, rng.randint(20, 80))
     text = "\n".join(ops) + "\n"
     r = subprocess.run([str(exe)], input=text, capture_output=True, text=True, timeout=60)
     res = {"idx": idx, "ops": ops, "problems": [], "n": len(ops), "shared": 0}
@@ -119,6 +173,8 @@ def run(tier):
     n = 400 if tier == "quick" else 8000
     with mp.Pool(min(common.JOBS, 14)) as pool:
         results = pool.map(run_case, [(i, chk.seed, exe) for i in range(n)], chunksize=8)
+        exe2 = common.compile_harness("store_arith_harness", ["store_arith_harness.cc"], link_lib=True)
+        results += pool.map(run_case, [(f"a{i}", chk.seed, (exe2, "arith")) for i in range(n // 2)], chunksize=8)
     total = shared = 0
     for r in results:
         total += r["n"]; shared += r["shared"]
@@ -130,6 +186,7 @@ def run(tier):
             chk.violation("hash-consing", pr["what"], {"ops": pr.get("ops", r["ops"]), "problem": pr})
     chk.assumptions = ["constructors that simplify (constant or repeated conjuncts) are outside the store model; they are C14's subject"]
     return chk.finish(rule="one case = one sequence of 20-80 constructions (constants, uninterpreted applications of arity 1-3, a predicate, "
-                           "equalities, conjunctions / disjunctions) with repetitions and permuted repetitions; non-trivial = some result "
+                           "equalities, conjunctions / disjunctions; in the arithmetic harness integer variables, scaled variables, sums over different variables, "
+                           "equalities, exclusive ors) with repetitions and permuted repetitions; non-trivial = some result "
                            "coincides with an earlier one",
                       extra={"constructions": total, "coinciding_results": shared})
